@@ -325,6 +325,21 @@ fn build_request(s: &Setup, r: &Value) -> Built {
             ),
           ]),
         ),
+        "keys" => (
+          "odd_keys".into(),
+          vec![("s", sv.clone()), ("n", nv.clone()), ("b", bv.clone())],
+          Val::Ctx(vec![
+            ("".into(), sv.clone()),
+            ("a\"b".into(), sv.clone()),
+            ("1".into(), Val::List(vec![Val::List(vec![sv.clone()]), Val::List(vec![]), Val::List(vec![Val::List(vec![nv.clone(), Val::List(vec![bv.clone()])])])])),
+            ("x\ty".into(), Val::Ctx(vec![("".into(), Val::List(vec![]))])),
+            ("\\".into(), Val::Null),
+            ("\u{e9}\u{4e2d}".into(), bv.clone()),
+            ("k\u{1}".into(), nv.clone()),
+            ("e".into(), Val::Ctx(vec![])),
+            ("le".into(), Val::List(vec![Val::Ctx(vec![]), Val::List(vec![]), Val::Ctx(vec![("".into(), Val::Ctx(vec![]))])])),
+          ]),
+        ),
         "d" | "t" | "dt" | "dd" | "ym" => {
           let ty = match dec {
             "d" => "xsd:date",
@@ -1975,7 +1990,8 @@ fn gen_echo(rng: &mut Rng, m: String) -> Value {
     4..=5 => "n",
     6 => "b",
     7 => "snull",
-    8..=9 => "mix",
+    8 => "mix",
+    9 => "keys",
     12 => "l",
     13 | 14 => "p",
     15 => "lnil",
